@@ -1,0 +1,8 @@
+//go:build !verif
+// +build !verif
+
+package quadtree
+
+// verifVisit is a hook point for the verification harness,
+// it does nothing unless the `verif` build tag is set.
+func verifVisit() {}
